@@ -102,7 +102,7 @@ LOADER_TRUST = COMMON_TRUST + [
 PROPS["C11"] = dict(
     units=["sauce"],
     trusted_base=LOADER_TRUST + ["array-vs-slice comparison `SAUCE_ID != data[o..o+5]` is uninterpreted in Verus: which files are *recognised* as carrying SAUCE is not decided, only what is cut when they are"],
-    unverified_remainder=["Buffer::write_sauce_info is proved for its framing only (appends exactly EOF + COMNT block + 128 bytes, leaves the content untouched, writes the comment count at record offset 104); the values of the other record fields (data type, file type, TInfo, flags, field order) are NOT decided on the writer side - a proof of them verified only at rlimit 80 / 50 s and was withdrawn as unstable; Buffer accessors, chrono date, to_le_bytes and SauceData::default() fields are O1 stubs",
+    unverified_remainder=["Buffer::write_sauce_info is proved for its framing (appends exactly EOF + COMNT block + 128 bytes, leaves the content untouched, comment count at record offset 104), for the title / author / group content bytes at offsets 7 / 42 / 62, and for data type, file type / BIN width, TInfo1 / TInfo2 and the ice, aspect-ratio and letter-spacing flag bits; NOT decided: the id and version bytes, the padding of the text fields, TInfoS (font name), comment lines' contents; Buffer accessors, chrono date, to_le_bytes and SauceData::default() fields are O1 stubs",
                           "equality of the loaded pictures beyond byte-identical loader input (argued from determinism of the loaders)"],
     explanation="SauceString::{read,len,append_to} are proved against the SAUCE rev-5 field codec (LEN bytes, content then padding) and "
                 "lemma_sauce_field_roundtrip proves read(append_to(s)) equal to s under the type's trimmed equality for every content "
